@@ -30,6 +30,7 @@ type chanSite struct {
 	raw    bool
 	lossy  bool
 	defer_ bool
+	chv    ssa.Value // the channel operand at the site
 }
 
 // goEntries maps a function to true when it is the target of some `go` statement.
@@ -117,6 +118,7 @@ func runC12(p *Prog, r *Report) {
 					continue
 				}
 				seenInstr[k] = true
+				cs.chv = ch
 				m[mc] = append(m[mc], cs)
 			}
 		}
@@ -146,7 +148,7 @@ func runC12(p *Prog, r *Report) {
 				}
 			}
 			for _, em := range s.Emits() {
-				add(sends, em.Chan, chanSite{fn: fn, instr: em.Ev.Instr, seg: s, ev: em.Ev, kind: "send", raw: em.Raw, lossy: em.Lossy})
+				add(sends, s.Resolve(em.Chan), chanSite{fn: fn, instr: em.Ev.Instr, seg: s, ev: em.Ev, kind: "send", raw: em.Raw, lossy: em.Lossy})
 			}
 			for _, e := range s.Events {
 				if e.Kind == EvRecv {
@@ -180,12 +182,81 @@ func runC12(p *Prog, r *Report) {
 	}
 	sort.Slice(chans, func(i, j int) bool { return p.Pos(chans[i].Pos()) < p.Pos(chans[j].Pos()) })
 	perFn := map[*ssa.Function]int{}
+	// channel factories: a function whose make(chan) is only returned creates a fresh channel per call; the
+	// discipline is checked per call site (the closes, sends and receives that derive from that call)
+	factoryOf := func(mc *ssa.MakeChan) *ssa.Function {
+		F := mc.Parent()
+		if F.Parent() != nil || targets[F] || mc.Referrers() == nil {
+			return nil
+		}
+		var onlyReturned func(v ssa.Value, d int) bool
+		onlyReturned = func(v ssa.Value, d int) bool {
+			if d > 3 || v.Referrers() == nil {
+				return false
+			}
+			n := 0
+			for _, ref := range *v.Referrers() {
+				switch t := ref.(type) {
+				case *ssa.DebugRef:
+				case *ssa.Return:
+					n++
+				case *ssa.ChangeType:
+					if !onlyReturned(t, d+1) {
+						return false
+					}
+					n++
+				default:
+					return false
+				}
+			}
+			return n > 0
+		}
+		if !onlyReturned(mc, 0) || len(p.CallSites(F)) == 0 {
+			return nil
+		}
+		return F
+	}
+	type inst struct {
+		mc         *ssa.MakeChan
+		fn         *ssa.Function
+		pos        token.Pos
+		cl, sd, rc []chanSite
+	}
+	var insts []inst
 	for _, mc := range chans {
-		fn := mc.Parent()
+		if F := factoryOf(mc); F != nil {
+			stop := map[*ssa.Function]bool{F: true}
+			filter := func(in []chanSite, call ssa.Value) []chanSite {
+				var out []chanSite
+				for _, cs := range in {
+					for _, o := range p.OriginsStopAt(cs.chv, stop) {
+						if o == call {
+							out = append(out, cs)
+							break
+						}
+					}
+				}
+				return out
+			}
+			for _, ci := range p.CallSites(F) {
+				cv, isV := ci.(*ssa.Call)
+				if !isV {
+					continue
+				}
+				insts = append(insts, inst{mc, cv.Parent(), cv.Pos(), filter(closes[mc], cv), filter(sends[mc], cv), filter(recvs[mc], cv)})
+			}
+			continue
+		}
+		insts = append(insts, inst{mc, mc.Parent(), mc.Pos(), closes[mc], sends[mc], recvs[mc]})
+	}
+	sort.SliceStable(insts, func(i, j int) bool { return p.Pos(insts[i].pos) < p.Pos(insts[j].pos) })
+	for _, in := range insts {
+		mc := in.mc
+		fn := in.fn
 		perFn[fn]++
 		key := fmt.Sprintf("%s/chan#%d", FuncName(fn), perFn[fn])
-		pos := p.Pos(mc.Pos())
-		cl, sd, rc := closes[mc], sends[mc], recvs[mc]
+		pos := p.Pos(in.pos)
+		cl, sd, rc := in.cl, in.sd, in.rc
 		// --- Rule A: closes are path-exclusive
 		okA, detailA := true, ""
 		// group by goroutine (deferred closure literals run in their parent's goroutine at its exit)
@@ -887,6 +958,13 @@ func (a *awaitState) makeChansThroughIfaces(ch ssa.Value, d int) []*ssa.MakeChan
 			out = append(out, t)
 		case *ssa.Extract:
 			if call, ok := t.Tuple.(*ssa.Call); ok {
+				// a thin forwarding adapter: what it returns is what the wrapped interface call returns
+				if f := StaticCallee(&call.Call); f != nil && f.Signature.Recv() != nil && f.Blocks != nil && isPlainForwarder(f, f.Name()) {
+					if ret, isR := f.Blocks[0].Instrs[len(f.Blocks[0].Instrs)-1].(*ssa.Return); isR && t.Index < len(ret.Results) {
+						out = append(out, a.makeChansThroughIfaces(ret.Results[t.Index], d+1)...)
+					}
+					continue
+				}
 				if m := IfaceMethod(&call.Call); m != nil && m.Pkg() != nil && IsRepoPkg(m.Pkg()) {
 					iname := ""
 					if n, ok := m.Type().(*types.Signature).Recv().Type().(*types.Named); ok {
@@ -983,6 +1061,22 @@ func closingHelpers(p *Prog) map[*ssa.Function]bool {
 						if _, isP := c.Call.Args[0].(*ssa.Parameter); isP {
 							closes = true
 						}
+					}
+					// ... or hands one of its channel parameters to a guarded-send helper (a thin wrapper that
+					// builds the value and sends it): the send belongs to the goroutine of the caller
+					if g := StaticCallee(&c.Call); g != nil && SummGuardedSend(g) != nil {
+						for _, a := range c.Call.Args {
+							if prm, isP := a.(*ssa.Parameter); isP {
+								if _, isCh := prm.Type().Underlying().(*types.Chan); isCh {
+									closes = true
+								}
+							}
+						}
+					}
+				}
+				if snd, ok := in.(*ssa.Send); ok {
+					if _, isP := snd.Chan.(*ssa.Parameter); isP {
+						closes = true
 					}
 				}
 			}
